@@ -39,6 +39,7 @@ import numpy as np
 import scipy as sp
 from scipy.sparse import lil_matrix, spmatrix
 
+from lbfgsb.base import clip2bounds
 from lbfgsb.bfgsmats import LBFGSB_MATRICES, bmv
 from lbfgsb.types import NDArrayFloat, NDArrayInt
 
@@ -437,4 +438,5 @@ def subspace_minimization(
         ),
     )
     # Eq (5.2) -> update free variables only
-    return xc + alpha_star * Z @ dHat
+    # (clipped: rounding may leave the box by one ulp)
+    return clip2bounds(xc + alpha_star * Z @ dHat, lb, ub)
